@@ -307,12 +307,13 @@ fn parse_directive_definition(
             .collect()
     })?
     .unwrap_or_default();
+    // the `repeatable` rule matches the empty string as well: look at what it matched
     let is_repeatable = parse_if_rule(&mut pairs, Rule::repeatable, |pair| {
         debug_assert_eq!(pair.as_rule(), Rule::repeatable);
-        Ok(())
+        Ok(!pair.as_str().is_empty())
     })
     .unwrap_or_default()
-    .is_some();
+    .unwrap_or(false);
     let locations = {
         let pair = pairs.next().unwrap();
         debug_assert_eq!(pair.as_rule(), Rule::directive_locations);
